@@ -56,6 +56,9 @@ type TreeSpec struct {
 	Fan     int    `json:"fan,omitempty"`
 	Names   []B    `json:"names,omitempty"`
 	Dists   []F    `json:"dists,omitempty"`
+	// EmptyLeaves: 0 = childless nodes have a nil Children slice, 1 = an empty non-nil slice,
+	// 2 = alternating, 3 = an empty slice with spare capacity.
+	EmptyLeaves int `json:"empty_leaves,omitempty"`
 }
 
 // ParentArray expands the spec into a parent array (parent of node i, -1 for the root) in an
